@@ -90,13 +90,16 @@ func parseASEvents(s string) ([]asEvent, bool) {
 		}
 		seen := map[rune]bool{}
 		for _, c := range ev.flags {
-			if !strings.ContainsRune("fxyjiz", c) || seen[c] {
+			if !strings.ContainsRune("fxyjizuv", c) || seen[c] {
 				return nil, false
 			}
 			seen[c] = true
 		}
-		if seen['z'] && (seen['x'] || seen['y'] || seen['j'] || seen['i']) {
+		if seen['z'] && (seen['x'] || seen['y'] || seen['j'] || seen['i'] || seen['u'] || seen['v']) {
 			return nil, false // a null config has no app that could fail and no @id
+		}
+		if (seen['i'] && seen['u']) || (seen['i'] && seen['v']) || (seen['u'] && seen['v']) {
+			return nil, false // one @id variant per config: i on the app, u the same renamed, v moved to another object
 		}
 		if a[2] != "-" {
 			if len(a[2]) < 2 || (a[2][0] != 'K' && a[2][0] != 'F') {
@@ -142,12 +145,21 @@ func (e asEvent) configJSON() []byte {
 	if e.has('y') {
 		probe["fail"] = "start"
 	}
+	// @id tags (meta fields: stripped before the config is decoded, kept in the document): the same
+	// config with the tag on the app (i), renamed (u) or moved to the default log (v) differs ONLY in ids
 	if e.has('i') {
 		probe["@id"] = "id" + e.n
 	}
+	if e.has('u') {
+		probe["@id"] = "jd" + e.n
+	}
+	defaultLog := map[string]any{"writer": map[string]any{"output": "discard"}}
+	if e.has('v') {
+		defaultLog["@id"] = "id" + e.n
+	}
 	cfg := map[string]any{
 		"admin":   admin,
-		"logging": map[string]any{"logs": map[string]any{"default": map[string]any{"writer": map[string]any{"output": "discard"}}}},
+		"logging": map[string]any{"logs": map[string]any{"default": defaultLog}},
 		"apps":    map[string]any{"c14probe": probe},
 	}
 	if e.has('j') {
@@ -910,6 +922,7 @@ func runAS(line, hist string) core.Outcome {
 				}
 			}
 			hadRunning := false // does this process have a running probe config
+			curTok := ""        // the document this process is running
 			ran := len(obs)
 			if ran > len(seg) {
 				ran = len(seg)
@@ -1015,6 +1028,19 @@ func runAS(line, hist string) core.Outcome {
 						}
 					}
 				}
+				if resName == "same" && !ev.resume {
+					// Load returned nil and nothing was reloaded: that is right only for the very document
+					// that is running — "equal after removing the @id tags" is not "equal": the tags are part
+					// of what --resume must bring back
+					if ev.token() != curTok {
+						fail("autosave-push-accepted-without-reload",
+							fmt.Sprintf("load %s of %q returned nil without a reload although the running document is %s; the autosave file holds %s",
+								ev.raw, hist, curTok, contentTok(sim.p, evs)))
+					}
+				}
+				if resName == "ok" {
+					curTok = ev.token()
+				}
 				if resName == "ok" || (resName == "killed" && lo.started) {
 					hadRunning = !ev.has('z')
 				}
@@ -1102,7 +1128,7 @@ func resumeEvent(tok string) asEvent {
 	}
 	ev.n, ev.persist = tok[:i], tok[i]
 	for _, c := range tok[i+1:] {
-		if !strings.ContainsRune("xyji", c) {
+		if !strings.ContainsRune("xyjiuv", c) {
 			ev.corrupt = true
 			return ev
 		}
